@@ -140,8 +140,52 @@ def jobs(tier):
             for method in b["methods"]:
                 for fmt in b["formats"]:
                     out.append({"name": "%s/%s/%s" % ("+".join(placement) or "none", method, fmt), "placement": list(placement), "method": method,
-                                "fmt": fmt, "plaintexts": b["plaintexts"], "depth": b["history_depth"]})
+                                "fmt": fmt, "plaintexts": b["plaintexts"], "depth": b["history_depth"],
+                                "new_process": tier == "thorough" or (method == "aes" and fmt == "json")})
     return out
+
+
+SESSION_SCRIPT = r"""
+import json, os, sys
+sys.path.insert(0, %(repo)r)
+sys.path.insert(0, %(verif)r)
+os.environ["HOME"] = %(home)r
+import cincoconfig
+cincoconfig.Config.DEFAULT_CINCOKEY_FILEPATH = os.path.join(%(home)r, ".cincokey")
+from mc.props import c03
+schema = c03.build(%(method)r, %(placement)r, %(tmp)r)
+cfg = c03.new_config(schema, %(placement)r, %(tmp)r)
+cfg.load(%(path)r, %(fmt)r)
+print(json.dumps(c03.read_secrets(cfg)))
+"""
+
+
+def new_process_session(ctx, job, pname):
+    """a genuinely new session: another interpreter builds a new configuration object and loads the saved file"""
+    import subprocess
+    import sys as _sys
+    tmp = ctx.tmp
+    write_keys(tmp)
+    placement, method, fmt = job["placement"], job["method"], job["fmt"]
+    p = PLAINTEXTS[pname]
+    cfg = new_config(build(method, placement, tmp), placement, tmp)
+    cfg.load_tree({"s": p, "sub": {"s": p, "deep": {"s": p}}, "t": {"s": p}, "ls": [p], "items": [{"s": p, "inner": {"s": p}}], "ts": [{"s": p}]})
+    path = os.path.join(tmp, "session." + fmt)
+    cfg.save(path, fmt)
+    want = read_secrets(cfg)
+    script = SESSION_SCRIPT % {"repo": core.REPO, "verif": core.VERIF, "home": core.home_dir(), "method": method, "placement": placement, "tmp": tmp, "path": path, "fmt": fmt}
+    env = dict(os.environ, PYTHONHASHSEED="0")
+    r = subprocess.run([_sys.executable, "-B", "-c", script], capture_output=True, text=True, env=env, timeout=120)
+    ctx.transitions += 1
+    ctx.case((tuple(placement), method, fmt, pname, "new-process"), "new-process:%s" % ("ok" if r.returncode == 0 else "fails"), True)
+    case = _case(job, [pname, ["new-process"]])
+    fpb = "C03|%s|%s|%s|" % ("+".join(placement) or "none", method, fmt)
+    if r.returncode != 0:
+        ctx.violation(fpb + "new-process-load-fails", "a new interpreter session fails to load the saved file: %s" % r.stderr.strip().splitlines()[-1:], case)
+        return
+    got = json.loads(r.stdout.strip().splitlines()[-1])
+    if got != want:
+        ctx.violation(fpb + "new-process-differs", "a new interpreter session reads %s, saved from %s" % (got, want), case)
 
 
 def run_job(job, ctx):
@@ -149,6 +193,10 @@ def run_job(job, ctx):
     if single:
         job = dict(single["jobparams_full"]); job["only"] = single["only"]
     only = job.get("only")
+    if only is None and job.get("new_process") or (only is not None and only[1] == ["new-process"]):
+        new_process_session(ctx, job, (only or [job["plaintexts"][0]])[0])
+        if only is not None:
+            return
     for pname in job["plaintexts"]:
         for hist in histories(job["depth"]):
             if only is not None and only != [pname, hist]:
